@@ -81,6 +81,9 @@ func dev(names []string) {
 	}
 	sort.Slice(fis, func(i, j int) bool { return fis[i].FullName() < fis[j].FullName() })
 	dir := "/tmp/govc-dev"
+	if d := os.Getenv("GOVC_DEVDIR"); d != "" {
+		dir = d // parallel runs must not share SMT files
+	}
 	os.MkdirAll(dir, 0o755)
 	for _, fi := range fis {
 		if fi.C == nil {
